@@ -298,7 +298,24 @@ func (c *evalCtx) call(e *Expr) (tval, error) {
 			}
 			c.names[p.Name] = as[i]
 		}
+		// the macro's parameters shadow function parameters of the same name, also inside old(...) (where a bare
+		// parameter name otherwise denotes the argument at entry)
+		if c.bound == nil {
+			c.bound = map[string]bool{}
+		}
+		savedBound := map[string]bool{}
+		for _, p := range sf.Params {
+			savedBound[p.Name] = c.bound[p.Name]
+			c.bound[p.Name] = true
+		}
 		r, err := c.eval(sf.Body)
+		for k, v := range savedBound {
+			if v {
+				c.bound[k] = true
+			} else {
+				delete(c.bound, k)
+			}
+		}
 		for k, v := range saved {
 			if v == nil {
 				delete(c.names, k)
